@@ -49,7 +49,8 @@ def summary (loaded : Bool) (nsig : Nat) : String := s!"loaded={b01 loaded} nsig
 def predict (fix : Bool) (c0 : Nat) (evs : List Ev) : String × Bool :=
   let s := if fix then runFix (initSt c0) evs else runCur (initSt c0) evs
   let m := if fix then marginalFix (initSt c0) evs else marginalCur (initSt c0) evs
-  (summary (allReported (changeTimes c0 evs) s.signals) s.signals.length, m)
+  (summary (allReported (changeTimes c0 evs) s.signals) s.signals.length,
+    m || marginalRace (changeTimes c0 evs) s.signals)
 
 def step (_ : Unit) (op impl : String) : Unit × DrvOut :=
   match words op with
